@@ -357,6 +357,10 @@ def make_relu_model(tf, shape, seed):
     return m
 
 
+def _is_relu_site(tf, l):
+    return bool(isinstance(l, tf.keras.layers.ReLU) or getattr(l, "activation", None) in (tf.nn.relu, tf.keras.activations.relu))
+
+
 def run_override_case(ctx, d):
     """the user's model (and explainers made before / after on it) back-propagates as an untouched twin does, whatever
     DeconvNet / GuidedBackprop objects were built on it in between; new batch shapes force new traces"""
@@ -396,8 +400,9 @@ def run_override_case(ctx, d):
             continue
         if step != "Saliency":
             # frame condition of the override: the explainer's (cloned) model owns none of the user's layer objects
-            shared = set(map(id, objs[step].model.layers)) & set(map(id, model.layers))
-            ctx.check_prop("override-clone-shares-no-layer-object", not shared, dd, {"shared_layers": len(shared)})
+            # (sharing layers the override never re-routes would be harmless; only ReLU sites count)
+            shared = set(map(id, objs[step].model.layers)) & set(id(l) for l in model.layers if _is_relu_site(tf, l))
+            ctx.check_prop("override-clone-shares-no-relu-site-object", not shared, dd, {"shared_relu_sites": len(shared)})
         want = getattr(A, step)(twin, batch_size=d["bs"])(x, y).numpy()
         ctx.check_prop("explainer-unaffected-by-later-explainers", got.shape == want.shape and bool(np.allclose(got, want, rtol=1e-5, atol=1e-6)),
                        dd, {"got": got.reshape(-1)[:6].tolist(), "want": want.reshape(-1)[:6].tolist()}, signature="override:" + step)
@@ -407,12 +412,11 @@ def run_override_case(ctx, d):
     # ---- the Lean heap model of clone + re-route (Hist.overrideAll): shared layer objects and rules at the END ----
     built = [st for st in dict.fromkeys(d["steps"]) if st in objs and st != "Saliency"]
     if built:
-        relu_flags = [bool(isinstance(l, (tf.keras.layers.ReLU,)) or getattr(l, "activation", None) in (tf.nn.relu, tf.keras.activations.relu))
-                      for l in model.layers]
+        relu_flags = [_is_relu_site(tf, l) for l in model.layers]
         lm = ctx.driver.call({"op": "hist_override", "relu": relu_flags,
                               "steps": [{"DeconvNet": "deconv", "GuidedBackprop": "guided"}[st] for st in built]})
-        shared = [len(set(map(id, objs[st].model.layers)) & set(map(id, model.layers))) for st in built]
-        ctx.check_corr("override_shared_layer_objects", shared, [Fraction(v) for v in lm["shared"]], d, rtol=0, atol=0)
+        shared = [len(set(map(id, objs[st].model.layers)) & set(id(l) for l in model.layers if _is_relu_site(tf, l))) for st in built]
+        ctx.check_corr("override_shared_relu_site_objects", shared, [Fraction(v) for v in lm["shared_relu"]], d, rtol=0, atol=0)
         xr, yr = data(d["N_final"] + 2)                       # a batch shape nobody has traced yet
         ref = {"plain": user_grad(twin, xr, yr),
                "deconv": A.DeconvNet(twin, batch_size=None)(xr, yr).numpy(),
